@@ -34,6 +34,8 @@ THEOREMS = {
     "C14": [("XV.Tz.tokens_after_neutral_prefix", "XonshVerif.Properties.C14"), ("XV.Tz.tokenize_append", "XonshVerif.Properties.C14"), ("XV.Tz.neutral_prefix_lines", "XonshVerif.Properties.C14"),
             ("XV.Tz.tokenizeLines_sh", "XonshVerif.Proofs.TokCompose"), ("XV.Tz.tokenizeLines_append", "XonshVerif.Proofs.TokCompose")],
     "C15": [("XV.Peg.parse_verbose", "XonshVerif.Properties.C15"), ("XV.Peg.execRule_verbose", "XonshVerif.Properties.C15"), ("XV.Peg.vinv", "XonshVerif.Proofs.PegVerbose")],
+    "C17": [("XV.Peg.lookahead_consumes_nothing", "XonshVerif.Properties.C17"), ("XV.Peg.not_is_complement", "XonshVerif.Properties.C17"), ("XV.Peg.ordered_choice_first", "XonshVerif.Properties.C17"),
+            ("XV.Peg.ordered_choice_next", "XonshVerif.Properties.C17"), ("XV.Peg.empty_choice_fails", "XonshVerif.Properties.C17"), ("XV.Peg.memo_hit_is_constant", _PC)],
     "C18": [("XV.Peg.no_multi_edge_on_cycle", _PC), ("XV.Peg.memo_hit_is_constant", _PC)],
     "C02": _INERT,
     "C05": _INERT,
